@@ -99,3 +99,8 @@ func init() {
 		Bounds: codec.Bounds + " || " + gen.Bounds, Functions: append(append([]string{}, codec.Functions...), gen.Functions...),
 		Assumptions: append(append([]string{}, codec.Assumptions...), gen.Assumptions...)})
 }
+
+func init() {
+	register(&Prop{ID: "C15", Dir: "/repo", HarnessDirs: []string{"c15"}, Pkg: tgPath + "thrift_reflection", RealMeta: true,
+		Harnesses: []Harness{{Func: "H_C15_try", Covers: []string{"end"}}}})
+}
